@@ -674,7 +674,7 @@ impl EventGen for Tag {
                 (events, bbox) = (ev, bb);
                 // (see `Tag::Leaf` below)
                 if let Some(tail) = tail {
-                    if !(events.is_empty() && tail.trim().is_empty()) {
+                    if !(events.is_empty() && tail.trim().is_empty() && tail.contains('\n')) {
                         events.push(OutputEvent::Text(tail.to_owned()));
                     }
                 }
@@ -707,7 +707,7 @@ impl EventGen for Tag {
                 // The layout white space after an element which leaves nothing in the
                 // output goes with it; text which follows it does not.
                 if let Some(tail) = tail {
-                    if !(events.is_empty() && tail.trim().is_empty()) {
+                    if !(events.is_empty() && tail.trim().is_empty() && tail.contains('\n')) {
                         events.push(OutputEvent::Text(tail.to_owned()));
                     }
                 }
